@@ -56,6 +56,10 @@ struct WorldI : World {
     const Json &want = plan->knobs["expect"];
     if (want.is_null()) return;
     std::string in = plan->knobs.gets("stdin");
+    // out of memory (or another injected fault) may make the injection fail as a whole: exit 111 and nothing queued is fine, a
+    // queued message is not excused - its envelope must still be complete
+    bool faulted = !plan->faults.empty();
+    if (faulted && queued.empty() && (code == 111 || code == 100)) { k->probe("c17_inject_failed_cleanly_under_fault"); return; }
     if (code != 0 || queued.size() < 1) { violate("C17.inject-refused", "qmail-inject exited " + std::to_string(code) + " with " + std::to_string(queued.size()) + " messages queued for header \"" + printable(in, 200) + "\""); return; }
     std::vector<std::string> w; for (auto &x : want["rcpts"].a) w.push_back(x.str());
     std::vector<std::string> g = queued[0].rcpts;
